@@ -1275,10 +1275,10 @@ Lemma append_at_store hp j used d : length d <> 0 ->
 Proof.
   intros Hn. unfold append_at. destruct (hget hp j) as [b|] eqn:E; [|reflexivity].
   rewrite length_zeros, (proj2 (Nat.eqb_neq _ _) Hn).
-  unfold wr at 1 3. rewrite length_zeros.
+  unfold wr at 1 2. rewrite length_zeros.
   destruct (Nat.leb_spec (used + length d) (length (bdata b))) as [H|H]; [|reflexivity].
   cbn [bind lift]. rewrite store_hset by (apply (hget_lt _ _ _ E)). bsimp.
-  rewrite wr_sem by (len_simp; lia). cbn [bind lift]. rewrite hset_hset. f_equal. f_equal.
+  rewrite wr_sem by (len_simp; lia). cbn [bind lift]. f_equal. f_equal.
   unfold set_used, set_data; cbn. f_equal. list_eq.
 Qed.
 
@@ -1303,14 +1303,15 @@ Qed.
 
 Lemma x_fresh_sem hp a d : ares_ok hp a (x_fresh hp a d) (s_xset d) false.
 Proof.
-  unfold x_fresh. change (let nb := new_buf (length d) false false in
-                          do m <- wr (bdata nb) 0 d; Ok (set_used (set_data nb m) (length d))) with (filled_buf d).
-  pose proof (filled_buf_sem d) as F. destruct (filled_buf d) as [nb| |]; try contradiction.
+  unfold x_fresh. pose proof (filled_buf_sem d) as F. unfold filled_buf in F. cbn zeta in *.
+  destruct (do m <- wr _ 0 d; _) as [nb| |]; try contradiction.
   destruct F as [F1 [F2 [F3 [F4 F5]]]]. cbn [ares_ok]. split.
   - apply (P_fresh0 hp a); assumption.
-  - unfold s_xset, D, aval. rewrite hget_app_r by (rewrite length_unref_opt; lia).
-    change (match a with Some i => hunref hp i | None => hp end) with (unref_opt hp a).
-    rewrite length_unref_opt, Nat.sub_diag. cbn [hget nth_error option_map]. unfold bval. rewrite F3, F4. reflexivity.
+  - unfold s_xset, D, aval. assert (Hg : forall nb', hget (match a with Some i => hunref hp i | None => hp end ++ [Some nb']) (length hp) = Some nb').
+    { intros nb'. destruct a as [i|].
+      - rewrite hget_app_r by (rewrite length_hunref; lia). rewrite length_hunref, Nat.sub_diag. reflexivity.
+      - rewrite hget_app_r by lia. rewrite Nat.sub_diag. reflexivity. }
+    rewrite Hg. cbn [hget nth_error option_map]. unfold bval. rewrite F3, F4. reflexivity.
 Qed.
 
 Lemma x_set_sem hp a d : aok hp a -> ares_ok hp a (x_set hp a d) (s_xset d) false.
@@ -1354,9 +1355,11 @@ Proof.
   destruct (buffer_set b1 1 (length text) [0%N]) as [b2| |]; [|congruence|contradiction].
   destruct B2 as [[J1 [J2 [J3 [J4 J5]]]] [W2 [V2 _]]]. cbn [ares_ok]. split.
   - apply (P_fresh0 hp a); [|exact W2]. rewrite J1, K1. reflexivity.
-  - unfold s_xsetstr, D, aval. change (match a with Some i => hunref hp i | None => hp end) with (unref_opt hp a).
-    rewrite hget_app_r by (rewrite length_unref_opt; lia).
-    rewrite length_unref_opt, Nat.sub_diag. cbn [hget nth_error option_map]. unfold bval.
+  - unfold s_xsetstr, D, aval. assert (Hg : forall nb', hget (match a with Some i => hunref hp i | None => hp end ++ [Some nb']) (length hp) = Some nb').
+    { intros nb'. destruct a as [i|].
+      - rewrite hget_app_r by (rewrite length_hunref; lia). rewrite length_hunref, Nat.sub_diag. reflexivity.
+      - rewrite hget_app_r by lia. rewrite Nat.sub_diag. reflexivity. }
+    rewrite Hg. cbn [hget nth_error option_map]. unfold bval.
     rewrite J4, K4, V2, V1'. subst nb. bsimp. rewrite put_end. reflexivity.
 Qed.
 
